@@ -263,6 +263,34 @@ def gen_cases(thorough):
             if rng.chance(1, 2): parts[rng.below(len(parts))] = b
             cs.append("joins %s %d %s" % (hx(b), len(parts), " ".join(hx(x) for x in parts)))
         else: cs.append("lev %s %s" % (hx(a0.swapcase()), hx(b0)))
+    # --- regimes added by the hypothesis audit (docs/audit/C19.md): arguments the earlier generator never produced
+    BIG = 4611686018427387903                               # 2^62 - 1: a huge limit other than npos
+    for lim in (BIG, 2 ** 32, 2 ** 31 - 1):
+        cs.append("splc 2c 612c2c62 %d" % lim); cs.append("spls 2c2c 612c2c2c62 %d" % lim); cs.append("splcm 2c 612c62 3 %d" % lim)
+    for k in range(0, 5):                                    # empty glue / empty separator, with and without limits
+        parts = [rbytes(rng.below(3), [b"a", b"b"]) for _ in range(k)]
+        cs.append("joins - %d %s" % (k, " ".join(hx(x) for x in parts)))
+        for lim in (None, 0, 1, 2, 7):
+            cs.append("spls - %s %s" % (hx(b"abcdef"[:k + 2]), lim_str(lim)))
+    for _ in range(2 * scale):                               # long inputs for the helpers (base64 has its own long block)
+        al = rng.choice([[b"a", b"b", b","], AL_TRIM, None])
+        n = 150 + rng.below(450); s0 = rbytes(n, al)
+        cs.append("spls %s %s %s" % (hx(rbytes(1 + rng.below(2), al)), hx(s0), lim_str(rng.choice([None, 3, 50]))))
+        cs.append("splc %s %s %s" % (hx(rbytes(1, al)), hx(s0), lim_str(rng.choice([None, 3, 50]))))
+        cs.append("repa %s %s %s" % (hx(s0), hx(rbytes(1 + rng.below(2), al)), hx(rbytes(rng.below(3), al))))
+        cs.append("trim %s %s" % (hx(rbytes(40, AL_TRIM[:4]) + s0 + rbytes(40, AL_TRIM[:4])), hx(b" \t\n\r")))
+        cs.append("era %s %s" % (hx(s0), hx(rbytes(2, al)))); cs.append("case %s" % hx(s0)); cs.append("hex %s" % hx(s0))
+        cs.append("sw %s %s" % (hx(s0), hx(s0[n - 30:]))); cs.append("cmp %s %s" % (hx(s0.replace(b"\x00", b"x")), hx(s0.replace(b"\x00", b"x").swapcase() + b"z")))
+        cs.append("pad %s %d 2e" % (hx(s0[:20]), 200 + rng.below(800)))
+        a = rbytes(40 + rng.below(40), [b"a", b"b", b"A"]); cs.append("lev %s %s" % (hx(a), hx(a[5:30] + rbytes(20, [b"a", b"b"]) + a[35:])))
+        cs.append("jq 20 22 5c 4 %s %s - %s" % (hx(s0[:120]), hx(s0[120:300]), hx(b'"' + s0[300:320])))
+    for c in (11, 12, 61, 0, 127, 128, 255):                 # base64 decoding: every class of the decode table inside a group, strict and lax
+        for strict in (0, 1):
+            cs.append("b64d %s %d" % (hx(b"QUJD" + bytes([c]) + b"RA=="), strict)); cs.append("b64d %s %d" % (hx(bytes([c]) * 3), strict))
+    for tail in (b"Q", b"QQ", b"QQQ", b"QQ=", b"QQ=Q", b"=QQ==QQ=="):   # incomplete groups, padding in the middle
+        cs.append("b64d %s 1" % hx(b"QUJD" + tail)); cs.append("b64d %s 0" % hx(tail))
+    for h in (b"a", b"abc", b"aB", b"Ab", b"0g", b"g0", b"0x41", b" 41", b"41 "):   # odd length, mixed case, non-digits first / second
+        cs.append("phex %s" % hx(h))
     # --- regimes added by the API-surface audit -------------------------------------------------------------
     ALL = bytes(range(256))
     # base64: long inputs crossing the line-break width several times, widths 4 / 8 / 76 (and 0, 64), lengths around the
@@ -314,14 +342,49 @@ def gen_cases(thorough):
     return cs
 
 # ---------------------------------------------------------------- property oracle on the implementation's line
-def lev_ref(a, b, eq):
-    prev = list(range(len(b) + 1))
+def lev_ref(a, b, eq, cid=1, crep=1, boundary=None):
+    """weighted edit distance; boundary = cost per step of the first row / column (None: cid, as it should be)"""
+    if boundary is None: boundary = cid
+    if not a: return len(b) * cid
+    if not b: return len(a) * cid
+    prev = [j * boundary for j in range(len(b) + 1)]
     for i in range(1, len(a) + 1):
-        cur = [i] + [0] * len(b)
+        cur = [i * boundary] + [0] * len(b)
         for j in range(1, len(b) + 1):
-            cur[j] = min(prev[j] + 1, cur[j - 1] + 1, prev[j - 1] + (0 if eq(a[i - 1], b[j - 1]) else 1))
+            cur[j] = min(prev[j] + cid, cur[j - 1] + cid, prev[j - 1] + (0 if eq(a[i - 1], b[j - 1]) else crep))
         prev = cur
     return prev[len(b)]
+
+B64_ALPHA = b"ABCDEFGHIJKLMNOPQRSTUVWXYZabcdefghijklmnopqrstuvwxyz0123456789+/"
+def b64decode_ref(s, strict):
+    """documented behaviour of base64_decode on ANY input: whitespace (and the padding '=') is skipped, any other
+    character outside the alphabet throws when strict and is skipped otherwise; complete bytes of the 6-bit stream are returned"""
+    vals = []
+    for c in s:
+        k = B64_ALPHA.find(bytes([c]))
+        if k >= 0: vals.append(k)
+        elif c in b" \t\n\r=": continue
+        elif strict: return None
+    out = bytearray()
+    for i in range(0, len(vals), 4):
+        g = vals[i:i + 4]
+        if len(g) >= 2: out.append(((g[0] << 2) | (g[1] >> 4)) & 255)
+        if len(g) >= 3: out.append(((g[1] << 4) | (g[2] >> 2)) & 255)
+        if len(g) >= 4: out.append(((g[2] << 6) | g[3]) & 255)
+    return bytes(out)
+
+def parse_hex_ref(s):
+    """documented behaviour of parse_hexdump on ANY input: pairs of hex digits of either case; anything else (incl. a lone last digit) throws"""
+    H = b"0123456789abcdef"
+    if len(s) % 2: 
+        # the first offending position decides nothing observable: any defect yields the exception
+        return None
+    out = bytearray()
+    for i in range(0, len(s), 2):
+        a, b = H.find(bytes([s[i]]).lower()), H.find(bytes([s[i + 1]]).lower())
+        if a < 0 or b < 0: return None
+        out.append(a * 16 + b)
+    return bytes(out)
 
 def sourcecode_ref(s, name):
     out = b"const std::uint8_t " + name + b"[" + str(len(s)).encode() + b"] = {\n"
@@ -339,6 +402,10 @@ def py_split(s, sep, lim):
 def lim_of(t): return None if t == "npos" else int(t)
 def sign(x): return (x > 0) - (x < 0)
 
+doc_obs = {}
+def observe(what, case, impl):
+    o = doc_obs.setdefault(what, {"count": 0, "first_witness": case, "result": impl[:160]}); o["count"] += 1
+
 def oracle(case, impl, extra=None):
     """None if the implementation's result satisfies the property on this case (or the property says nothing), else text"""
     t = case.split(); op = t[0]; f = fields(impl)
@@ -350,6 +417,12 @@ def oracle(case, impl, extra=None):
         if lb == 0 and b"\n" in enc: return "line break although line_break = 0"
         if f["decs"] == "EXC" or unhx(f["decs"]) != s or f["decn"] == "EXC" or unhx(f["decn"]) != s:
             if lb % 4 == 0: return "base64_decode(base64_encode(s, lb)) != s"
+    elif op == "b64d":
+        ref = b64decode_ref(unhx(t[1]), t[2] == "1")
+        if f["out"] != ("EXC" if ref is None else hx(ref)): return "base64_decode on arbitrary input differs from its documentation (whitespace and '=' skipped; other invalid characters throw when strict, are skipped otherwise)"
+    elif op == "phex":
+        ref = parse_hex_ref(unhx(t[1]))
+        if f["out"] != ("EXC" if ref is None else hx(ref)): return "parse_hexdump on arbitrary input differs from its documentation (pairs of hex digits of either case, else std::runtime_error)"
     elif op == "hex":
         s = unhx(t[1])
         if unhx(f["lc"]) != binascii.hexlify(s) or unhx(f["uc"]) != binascii.hexlify(s).upper(): return "hexdump differs from RFC 4648 base16 / binascii.hexlify"
@@ -364,20 +437,25 @@ def oracle(case, impl, extra=None):
     elif op in ("spls", "splsm"):
         sep, s = unhx(t[1]), unhx(t[2]); mn = int(t[3]) if op == "splsm" else 0; lim = lim_of(t[-1])
         if sep == b"":
-            if lim is not None and lim < len(s): return None          # documented nowhere: limit with an empty separator
-            ref = [bytes([c]) for c in s] if lim != 0 else []
+            # every character a part of its own; at most `limit` parts, the last one being the rest of the string
+            chars = [bytes([c]) for c in s]
+            if lim == 0: ref = []
+            elif lim is None or len(chars) <= lim: ref = chars
+            else: ref = chars[:lim - 1] + [s[lim - 1:]]
         else:
             ref = py_split(s, sep, lim)
         ref += [b""] * max(0, mn - len(ref))
-        if parse_list(impl.split()[0]) != ref: return "split(string) differs from the documented definition (Python bytes.split with maxsplit = limit-1)"
+        if parse_list(impl.split()[0]) != ref: return "split(string) differs from the documented definition (leftmost non-overlapping separators; at most limit parts, the last one being the unsplit rest; Python bytes.split with maxsplit = limit-1)"
     elif op in ("joinc", "joins"):
         sep = unhx(t[1]); parts = [unhx(x) for x in t[3:3 + int(t[2])]]
         if unhx(f["j"]) != sep.join(parts): return "join differs from its definition"
         if clean_parts(parts, sep) and parse_list(f["s"]) != parts: return "split(join(parts)) != parts although no separator occurs in or straddles the parts"
     elif op == "jq":
         sep, q, e = unhx(t[1]), unhx(t[2]), unhx(t[3]); parts = [unhx(x) for x in t[5:5 + int(t[4])]]
-        if len({sep, q, e}) == 3 and q not in b"nrt" and e not in b"nrt":
+        if sep != q and q != e and q not in b"nrt" and e not in b"nrt":
             if parse_list(f["s"]) != parts: return "split_quoted(join_quoted(v)) != v"
+        elif parse_list(f["s"]) != parts:
+            observe("documented precondition of join_quoted/split_quoted (quote differs from separator and escape; quote, escape not one of n, r, t) not met: no round trip", case, impl)
     elif op == "rep1":
         s, nd, ins = unhx(t[1]), unhx(t[2]), unhx(t[3])
         if unhx(impl.split()[0]) != s.replace(nd, ins, 1): return "replace_first differs from bytes.replace(needle, instead, 1)"
@@ -419,6 +497,9 @@ def oracle(case, impl, extra=None):
         if int(f["d"]) != lev_ref(a, b, lambda x, y: x == y): return "levenshtein differs from the edit distance"
         lo = lambda c: c + 32 if 65 <= c <= 90 else c
         if int(f["di"]) != lev_ref(a, b, lambda x, y: lo(x) == lo(y)): return "levenshtein_icase differs from the case-insensitive edit distance"
+        if extra:
+            weq = lambda x, y: (x | 32) == (y | 32); lw = int(extra["lw"])
+            if lw != lev_ref(a, b, weq, 2, 3): return "levenshtein_algorithm<custom Param> (insert/delete 2, replace 3) differs from the weighted edit distance"
     return None
 
 def clean_parts(parts, sep):
@@ -493,7 +574,7 @@ def _api():
     add("erase_all", ["(std::string*, char)", "(std::string*) [default drop]", "(std::string*, string_view)", "(string_view, char)", "(string_view) [default drop]", "(string_view, string_view)"], "era")
     add("pad", ["(string_view, size_t, char)", "(string_view, size_t) [default pad_char]"], "pad")
     add("levenshtein / levenshtein_icase", ["(const char*, const char*)", "(string_view, string_view)"], "lev", "const char* on NUL-free inputs")
-    add("levenshtein_algorithm<Param>", ["custom Param (other costs / char_equal)"], None, "only the two shipped parameter structs are instantiated; the Coq theorem is parametric in char_equal, costs are fixed to 1")
+    add("levenshtein_algorithm<Param>", ["custom Param (insert/delete 2, replace 3, coarser char_equal)"], "lev", "judged by the Python oracle only (weighted edit distance)")
     add("split_words / split_view-based helpers, escape_*, format_*, parse_*, word_wrap, ...", ["(other tlx/string files)"], None, "not named by the property")
     return T
 API_SURFACE = _api()
@@ -596,6 +677,7 @@ ck.finish({
     "input_distribution": stats,
     "aliasing_modes": "every two- and three-argument function is additionally called with its arguments laid out as views of ONE exactly-sized heap buffer (adjacent / shared-first = same start or contained / shared-last = same end / overlap / the same range twice), C-string overloads with both strings ending at the same NUL (equal strings: the same pointer twice), join with the glue being (a view into) an element of the joined vector, results assigned back to the viewed string (s = trim(s), s = replace_all(s, ..), s = erase_all(s, ..)), and the in-place functions replace_first / trim_left / trim_right with their read-only arguments viewing *str; any difference from the independently allocated call is a violation (!ALIAS)",
     "inplace_alias_observations": alias_obs,
+    "documentation_gap_observations": doc_obs,     # calls outside what the property text covers (docs/audit/C19.md): run, counted, witnessed, not judged
     "api_surface": API_SURFACE,
     "api_surface_summary": "%d signatures listed, %d called by the harness" % (len(API_SURFACE), sum(1 for x in API_SURFACE if x["called_by_harness"])),
     "tables_translated": ["enc64[64]", "dec64[256]", "xdigits_uc[16]", "xdigits_lc[16]", "hexparse_hi[22]", "hexparse_lo[22]"],
